@@ -149,6 +149,14 @@ func readerFault(c *mon.Ctx, idx int64, input []byte, cfg DemuxCfg, base []Item,
 		readerFault1(c, idx, input, cfg, base, f, true)
 		c.Count("reader_faults_delivered_with_data")
 	}
+	if (f+int(idx))%3 == 0 {
+		// the error says of itself that it is temporary (net.Error: an interrupted call, a deadline) and the reader works again
+		// afterwards: a failure all the same, the call during which it happens has to return it
+		cfg.FailErr, cfg.FailOnce = temporaryErr{}, true
+		readerFault1(c, idx, input, cfg, base, f, f%2 == 0 && f > 0)
+		cfg.FailOnce = false
+		c.Count("reader_faults_with_a_temporary_error_that_goes_away")
+	}
 	if (f+int(idx))%2 == 0 {
 		// the reader's own error is io.ErrUnexpectedEOF (cut gzip / tar / HTTP input): an error other than end-of-file
 		cfg.FailErr = io.ErrUnexpectedEOF
@@ -156,6 +164,13 @@ func readerFault(c *mon.Ctx, idx int64, input []byte, cfg DemuxCfg, base []Item,
 		c.Count("reader_faults_with_unexpected_eof_as_the_readers_error")
 	}
 }
+
+// temporaryErr is a reader failure that calls itself temporary, as net.OpError and os.ErrDeadlineExceeded do.
+type temporaryErr struct{}
+
+func (temporaryErr) Error() string   { return "verif: injected temporary failure" }
+func (temporaryErr) Temporary() bool { return true }
+func (temporaryErr) Timeout() bool   { return true }
 
 func readerFault1(c *mon.Ctx, idx int64, input []byte, cfg DemuxCfg, base []Item, f int, withData bool) {
 	cfg.HasFail, cfg.FailAt, cfg.FailWithData = true, f, withData
@@ -168,7 +183,11 @@ func readerFault1(c *mon.Ctx, idx int64, input []byte, cfg DemuxCfg, base []Item
 	cause := mon.ErrInjected
 	if cfg.FailErr != nil {
 		cause = cfg.FailErr
-		cls += "/unexpected-eof"
+		if cfg.FailOnce {
+			cls += "/temporary-error"
+		} else {
+			cls += "/unexpected-eof"
+		}
 	}
 	region := "payload"
 	switch {
